@@ -411,7 +411,13 @@ class HttpParser(abc.ABC, Generic[_MsgT]):
                             if not DIGITS.fullmatch(length_hdr):
                                 raise InvalidHeader(CONTENT_LENGTH)
 
-                            return int(length_hdr)
+                            try:
+                                return int(length_hdr)
+                            except ValueError:
+                                # int() refuses digit strings longer than
+                                # sys.get_int_max_str_digits() (4300 by default),
+                                # which still fit in max_field_size.
+                                raise InvalidHeader(CONTENT_LENGTH) from None
 
                         length = get_content_length()
                         # do not support old websocket spec
